@@ -291,6 +291,61 @@ def run_extended_known(ck, wd, bdir):
                      "([lex.pptoken]/3); the lexer looks one character ahead (check_digraph), the rule needs three", {"known.h": text}, se[-1500:])
 
 
+def run_typedef_redeclarations(ck, wd, bdir, n):
+    """[dcl.typedef]/3: a typedef-name may be declared again in its scope to refer to the type it already refers to — however that
+    type is spelled (directly, through another alias, behind a pointer / const / array, with an alias-declaration, with a class-key)"""
+    rng = ck.rng
+    for k in range(n):
+        base = rng.choice(["int", "double", "unsigned char", "long long", "signed char"])
+        lines = ["typedef %s b0_t;" % base, "typedef b0_t b1_t;", "using b2_t = b1_t;", "struct TS { int m; };", "typedef TS ts_t;"]
+        spell = lambda: rng.choice([base, "b0_t", "b1_t", "b2_t"])
+        for j in range(rng.randrange(3, 8)):
+            form = rng.choice(["plain", "ptr", "cptr", "arr", "ref", "ns", "struct"])      # (function types: known finding, probed below)
+            nm = "r%d_t" % j
+            two = [spell(), spell()]
+            if form == "plain":
+                decl = ["typedef %s %s;" % (x, nm) for x in two]
+            elif form == "ptr":
+                decl = ["typedef %s *%s;" % (x, nm) for x in two]
+            elif form == "cptr":
+                decl = ["typedef const %s *%s;" % (two[0], nm), "typedef %s const *%s;" % (two[1], nm)]
+            elif form == "arr":
+                decl = ["typedef %s %s[3];" % (x, nm) for x in two]
+            elif form == "ref":
+                decl = ["typedef %s &%s;" % (two[0], nm), "using %s = %s &;" % (nm, two[1])]
+            elif form == "fnptr":
+                decl = ["typedef %s (*%s)(%s);" % (two[0], nm, two[1]), "typedef %s (*%s)(%s);" % (two[1], nm, two[0])]
+            elif form == "struct":
+                decl = ["typedef TS %s;" % nm, rng.choice(["typedef struct TS %s;", "typedef ts_t %s;"]) % nm]
+            else:
+                decl = ["namespace ns%d { typedef %s h_t; %s }" % (j, two[0], rng.choice(["typedef %s h_t;" % two[1], "using h_t = %s;" % two[1]]))]
+            lines += decl
+            lines.append("extern %s use%d;" % ("ns%d::h_t" % j if form == "ns" else nm, j) if form != "ref" else "extern %s use%d;" % (nm, j))
+        text = "\n".join(lines) + "\n"
+        (wd / "tdr.h").write_text(text)
+        rc, so, se = iglib.sh(["g++", "-std=c++17", "-fsyntax-only", "-x", "c++", "tdr.h"], cwd=str(wd), timeout=60)
+        if rc != 0:
+            ck.extra["typedef_redeclarations_rejected_by_gxx"] = ck.extra.get("typedef_redeclarations_rejected_by_gxx", 0) + 1
+            continue
+        rc, so, se = iglib.sh([str(bdir / "bin" / "parse_file"), "tdr.h"], cwd=str(wd), timeout=60)
+        ck.search_case("typedef-redeclaration-accepted")
+        if rc != 0 or re.search(r"\berror\b|conflicting", se):
+            ck.violation("rejects-typedef-redeclaration", "parse_file rejects a header in which typedef-names are declared twice with the same type spelled differently (g++ accepts it)",
+                         {"tdr.h": text}, se[-2000:])
+            break
+
+
+def run_typedef_known(ck, wd, bdir):
+    """function types have no is_equivalent of their own: a function-pointer typedef declared again with an alias in its signature is rejected"""
+    text = "typedef unsigned char b_t;\ntypedef unsigned char (*fp_t)(b_t);\ntypedef b_t (*fp_t)(unsigned char);\nextern fp_t use;\n"
+    (wd / "tdk.h").write_text(text)
+    rc, so, se = iglib.sh([str(bdir / "bin" / "parse_file"), "tdk.h"], cwd=str(wd), timeout=60)
+    ck.search_case("known-limit-probe")
+    if rc != 0 or "conflicting" in se:
+        ck.violation("known:typedef-redeclaration-function-type", "`typedef unsigned char (*fp_t)(b_t); typedef b_t (*fp_t)(unsigned char);` (b_t an alias of unsigned char) is rejected as a "
+                     "conflicting declaration: CPPFunctionType has no is_equivalent(), so signatures are compared structurally", {"tdk.h": text}, se[-1500:])
+
+
 def run_stub_headers(ck, bdir):
     """every shipped parser-inc stub header that g++ accepts must parse with zero errors"""
     inc = iglib.REPO / "parser-inc"
@@ -336,5 +391,7 @@ def run(ck):
         scopegen.run_known(ck, wd, bdir)
         run_extended_known(ck, wd, bdir)
         run_stub_headers(ck, bdir)
+        run_typedef_redeclarations(ck, wd, bdir, 12 if quick else 300)
+        run_typedef_known(ck, wd, bdir)
     finally:
         shutil.rmtree(wd, ignore_errors=True)
